@@ -342,7 +342,8 @@ def run_fuzz(case):
                         obs["put_requests_with_binary_messages_to_user"] = obs.get("put_requests_with_binary_messages_to_user", 0) + 1
                     elif pk in ("long_source_name", "long_dest_name"):
                         # an existing file whose path name does not fit the 255 byte LV field of the Metadata PDU (or such a destination name)
-                        long_path = w.root / "srcdir" / ("n" * rng.choice([230, 256, 300]))
+                        # (also: fewer than 255 characters but more than 255 bytes in UTF-8)
+                        long_path = w.root / "srcdir" / rng.choice(["n" * 230, "n" * 256, "n" * 300, "\u00e9" * 120, "\u4e2d" * 80])
                         w.write_raw("src", long_path, b"abc")
                         req = PutRequest(w.dst_id, long_path, w.dst_req_path, None, None) if pk == "long_source_name" else PutRequest(
                             w.dst_id, w.src_path, w.root / "dstdir" / ("m" * 300), None, None)
